@@ -7,6 +7,7 @@ CONSTANTS
  Roots <- RootsOA
  AllCaps = TRUE
  WithInvalid = TRUE
+ Pres <- Pres0
  EmitOn = FALSE
 INVARIANTS Refines
 CHECK_DEADLOCK FALSE
